@@ -177,7 +177,8 @@ def AMINO(i, cls="ALA", nbonds=("CA",)):
 
 
 def WATER(i):
-    return Named(f"r{i}", Obj("pdb2pqr.aa:WAT", name=Const("HOH"), patches=Items(), map=DictOf()))
+    return Named(f"r{i}", Obj("pdb2pqr.aa:WAT", name=Const("HOH"), patches=Items(), map=DictOf(),
+                              is_n_term=Const(0), is_c_term=Const(0)))
 
 
 def CAP(i, name):
@@ -218,7 +219,7 @@ def _termini(name, residues, last_amino, first_nbonds_heavy, extra_ens=()):
             ens.append(f"untouched(r{i})")
     ens.extend(extra_ens)
     contract(
-        "pdb2pqr.biomolecule:Biomolecule.assign_termini", "C02",
+        "pdb2pqr.biomolecule:Biomolecule.assign_termini", ["C02", "C09"],
         params={"self": Obj("pdb2pqr.biomolecule:Biomolecule"),
                 "chain": Obj("pdb2pqr.structures:Chain", chain_id=Const("A"), residues=Items(*residues)),
                 "neutraln": Enum(False, True), "neutralc": Enum(False, True)},
@@ -235,3 +236,9 @@ _termini("pro_first", [AMINO(0, "PRO", ("CA", "CD")), AMINO(1), AMINO(2)], 2, 2)
 _termini("water_last", [AMINO(0), AMINO(1), WATER(2)], 1, 1, ["len(r2.patches) == 0"])
 _termini("capped", [AMINO(0), AMINO(1), CAP(2, "NME")], None, 1,
          ["len(r1.patches) == 0 and not r1.is_c_term", "len(r2.patches) == 0"])
+# a cap that is not the last residue of its chain (waters / ions share the chain id): the capped end is not free
+_termini("capped_then_water", [AMINO(0), AMINO(1), CAP(2, "NME"), WATER(3)], None, 1,
+         ["len(r1.patches) == 0 and not r1.is_c_term", "len(r2.patches) == 0", "len(r3.patches) == 0"])
+_termini("amide_then_waters", [AMINO(0), AMINO(1), CAP(2, "NH2"), WATER(3), WATER(4)], None, 1,
+         ["len(r1.patches) == 0 and not r1.is_c_term", "len(r2.patches) == 0"])
+_termini("two_waters_last", [AMINO(0), AMINO(1), WATER(2), WATER(3)], 1, 1, ["len(r2.patches) == 0 and len(r3.patches) == 0"])
